@@ -16,7 +16,8 @@ theorems stated about these definitions are re-checked against what the code say
 import re
 import sys
 
-WIDTH = {'u8': 8, 'u16': 16, 'u32': 32, 'u64': 64, 'u128': 128, 'usize': 64}
+WIDTH = {'u8': 8, 'u16': 16, 'u32': 32, 'u64': 64, 'u128': 128, 'usize': 64,
+         'i8': 8}    # i8 only as a two's-complement byte: `-`, `==` and literal patterns (cmp's -1/0/1)
 
 
 class TranslateError(Exception):
@@ -265,6 +266,10 @@ class Parser:
             # iterator over a slice: `for x in xs`, `for x in xs.iter_mut()`, `for x in xs.iter_mut().rev()`,
             # `for (x, (y, z)) in zip(&mut xs, zip(ys, zs))`
             save = self.i
+            if self.peek()[1] == '&':
+                it = self.parse_unary()                    # `for x in &mut xs` / `&mut self.limbs`
+                b = self.parse_block()
+                return ('foreach', var, it, b)
             if self.peek()[0] == 'id' and (self.peek(1)[1] in ('{', '.') or (self.peek()[1] == 'zip' and self.peek(1)[1] == '(')):
                 it = self.parse_postfix()
                 if self.peek()[1] == '{':
@@ -327,6 +332,8 @@ class Parser:
                 self.accept(',')
             return ('mtuple', ps)
         kind, v = self.next()
+        if v == '-' and self.peek()[0] == 'num':
+            return ('mlit', -int(self.next()[1].replace('_', ''), 0))
         if v == '_':
             return ('mwild',)
         if v in ('true', 'false'):
@@ -383,7 +390,10 @@ class Parser:
                 else:
                     e = ('fieldname', e, v)
             elif self.accept('['):
-                idx = self.parse_expr()
+                if self.accept('..'):
+                    idx = ('rangeto', self.parse_expr())      # `xs[..n]`
+                else:
+                    idx = self.parse_expr()
                 self.expect(']')
                 e = ('index', e, idx)
             elif self.peek()[1] == '(' and e[0] in ('path',):
@@ -436,6 +446,16 @@ class Parser:
                 else:
                     b = self.parse_block()
             return ('if', c, a, b)
+        if v == '|':
+            # closure `|x| body` / `|&x| body`
+            params = []
+            while not self.accept('|'):
+                self.accept('&')
+                self.accept('mut')
+                params.append(self.next()[1])
+                self.accept(',')
+            body = self.parse_expr()
+            return ('closure', params, body)
         if v == 'match':
             scrut = self.parse_expr()
             self.expect('{')
@@ -443,7 +463,11 @@ class Parser:
             while not self.accept('}'):
                 pat = self.parse_match_pat()
                 self.expect('=>')
-                body = self.parse_expr()
+                if self.peek()[1] in ('return', 'break', 'continue'):
+                    st = self.parse_stmt()                  # `pat => return e,`
+                    body = ('block', [st])
+                else:
+                    body = self.parse_expr()
                 self.accept(',')
                 arms.append((pat, body))
             return ('match', scrut, arms)
@@ -531,11 +555,15 @@ class Emitter:
             if len(p) == 2 and getattr(self, 'uint_mode', False) and p[0] == 'Self':
                 um = {'LIMBS': ('LIMBS', 'usize'), 'BITS': ('BITS', 'usize'), 'MASK': ('(mask BITS)', 'u64'),
                       'ZERO': ('(List.replicate LIMBS 0)', 'uint'),
+                      # `ONE = const_from_u64(1)`: the limbs of 1 (of 0 when BITS = 0)
+                      'ONE': ('(Ruint.toLimbs LIMBS (1 % 2 ^ BITS))', 'uint'),
                       # `MAX = from_limbs_unmasked([u64::MAX; LIMBS]).masked()` (src/lib.rs)
                       'MAX': ('(uint_masked BITS LIMBS (List.replicate LIMBS (2 ^ 64 - 1)))', 'uint'),
                       'SHOULD_MASK': ('(decide (BITS > 0) && ((mask BITS) != (2 ^ 64 - 1)))', 'bool')}
                 if p[1] in um:
                     return um[p[1]]
+            if len(p) == 2 and p[0] == 'Ordering' and p[1] in ('Less', 'Equal', 'Greater'):
+                return {'Less': 'Ordering.lt', 'Equal': 'Ordering.eq', 'Greater': 'Ordering.gt'}[p[1]], 'Ordering'
             if len(p) == 2:
                 key = '%s::%s' % (self.self_name if p[0] == 'Self' and self.self_name else p[0], p[1])
                 if key in getattr(self, 'gconsts', {}):
@@ -585,6 +613,12 @@ class Emitter:
             if e[2] == 'limbs' and t == 'uint':
                 return s, 'uint'
             raise TranslateError('unsupported field .%s' % e[2])
+        if k == 'index' and e[2][0] == 'rangeto':
+            s, t = self.expr(e[1], env)
+            if t not in ('slice', 'mutslice'):
+                raise TranslateError('prefix slicing of a non-slice')
+            n, _ = self.expr(e[2][1], env, 'usize')
+            return '(%s.take %s)' % (s, n), 'slice'        # `&xs[..n]` panics for n > len; callers pass n ≤ len
         if k == 'index':
             s, t = self.expr(e[1], env)
             i, _ = self.expr(e[2], env, 'usize')
@@ -604,7 +638,8 @@ class Emitter:
         if k == 'if':
             return self.if_expr(e, env, exp)
         if k == 'block':
-            return self.block(e, env, exp)
+            sb, tb = self.block(e, env, exp)
+            return '(%s)' % sb, tb
         if k == 'minlen':
             sa, _ = self.expr(e[1], env, 'usize')
             sb, _ = self.expr(e[2], env, 'usize')
@@ -637,7 +672,10 @@ class Emitter:
                 conds.append(term if pat[1] else '(!%s)' % term)
                 return
             if pat[0] == 'mlit':
-                conds.append('(%s == %d)' % (term, pat[1]))
+                v = pat[1]
+                if v < 0:
+                    v += 2 ** self.w(ty)           # two's complement at the scrutinee's width
+                conds.append('(%s == %d)' % (term, v))
                 return
             if pat[0] == 'mtuple':
                 if not (isinstance(ty, tuple) and ty[0] == 'tuple' and len(ty[1]) == len(pat[1])):
@@ -708,6 +746,17 @@ class Emitter:
             # `Ord for Uint` is the numeric order of the values (C04: `cmp` orders by `val`)
             lop = {'<': '<', '>': '>', '<=': '≤', '>=': '≥'}[op]
             return '(decide (Ruint.val %s %s Ruint.val %s))' % (sa, lop, sb), 'bool'
+        if ta == 'uint' and tb == 'uint' and getattr(self, 'uint_mode', False) != 'value' and op in ('*', '-', '+'):
+            # `Mul` / `Sub` / `Add for Uint` are `wrapping_mul` / `wrapping_sub` / `wrapping_add` (impl_bin_op!)
+            key = {'*': 'Uint::wrapping_mul', '-': 'Uint::wrapping_sub', '+': 'Uint::wrapping_add'}[op]
+            if key not in self.fns:
+                raise TranslateError('operator %s on Uint before %s is translated' % (op, key))
+            sig = self.fns[key]
+            ss = ['BITS', 'LIMBS', sa, sb]
+            if len(sig) > 3 and sig[3]:
+                self.uses_fuel = True
+                ss = ['fuel'] + ss
+            return '(%s %s)' % (sig[0], ' '.join(ss)), 'uint'
         if ta == 'uint' and tb == 'uint' and getattr(self, 'uint_mode', False) != 'value' and op in ('|', '&', '^'):
             # `BitOr` / `BitAnd` / `BitXor for Uint`: limb-wise (src/bits.rs impl_bit_op!)
             lop = {'|': '|||', '&': '&&&', '^': '^^^'}[op]
@@ -774,6 +823,10 @@ class Emitter:
             if name in self.fns:
                 return self.call_fn(self.fns[name], args, env)
             raise TranslateError('call to untranslated function %s' % name)
+        if path[-2:] == ['cmp', 'min'] and len(args) == 2:
+            sa, ta = self.expr(args[0], env, exp)
+            sb, _ = self.expr(args[1], env, ta)
+            return '(min %s %s)' % (sa, sb), ta
         if name in getattr(self, 'externs', {}) and path[0] in ('algorithms', 'crate', 'super'):
             tmpl, rt = self.externs[name][0], self.externs[name][1]
             ss = [self.expr(a, env, None)[0] for a in args]
@@ -784,6 +837,9 @@ class Emitter:
             if t == 'bool':
                 return '(%s).toNat' % s, head
             return s, head
+        if path == ['Self', 'from'] and getattr(self, 'uint_mode', False) is True and len(args) == 1 and args[0][0] == 'lit':
+            # `Self::from(k)` for a literal: the limbs of k (`from` panics when k does not fit; callers use small k)
+            return '(Ruint.toLimbs LIMBS %d)' % args[0][1], 'uint'
         if path[0] == 'Self' and getattr(self, 'uint_mode', False) and ('Uint::' + name) in self.fns and args:
             # `Self::method(x, …)`: the method call `x.method(…)`
             return self.mcall(('mcall', args[0], name, args[1:]), env, exp)
@@ -855,6 +911,9 @@ class Emitter:
                 sb, _ = self.expr(args[0], env, tr)
                 f = {'overflowing_add': 'oadd', 'overflowing_sub': 'osub', 'overflowing_mul': 'omul'}[name]
                 return '(Rs.%s %d %s %s)' % (f, w, sr, sb), ('tuple', [tr, 'bool'])
+            if name == 'cmp' and len(args) == 1:
+                sb, _ = self.expr(args[0], env, tr)
+                return '(compare %s %s)' % (sr, sb), 'Ordering'
             if name == 'saturating_sub':
                 sb, _ = self.expr(args[0], env, tr)
                 return '(%s - %s)' % (sr, sb), tr          # ℕ subtraction truncates at 0
@@ -864,6 +923,10 @@ class Emitter:
                 return '(Rs.clz %d %s)' % (w, sr), 'u32'
             if name == 'trailing_zeros':
                 return '(Rs.ctz %d %s)' % (w, sr), 'u32'
+            if name == 'reverse_bits':
+                return '(Rs.rev %d %s)' % (w, sr), tr
+            if name == 'trailing_ones':
+                return '(Rs.ctz %d (2 ^ %d - 1 - %s))' % (w, w, sr), 'u32'
             if name == 'count_ones':
                 return '(Rs.popcnt %s)' % sr, 'u32'
             key = '%s::%s' % (tr, name)
@@ -873,6 +936,30 @@ class Emitter:
                 return '(%s %s)' % (sig[0], ' '.join(ss)), sig[2]
         if tr == 'uint' and name in ('as_limbs', 'into_limbs') and not args and getattr(self, 'uint_mode', False) is True:
             return sr, 'uint'
+        if tr in ('uint', 'slice', 'mutslice') and name in ('iter', 'copied') and not args:
+            return sr, tr
+        if tr in ('uint', 'slice', 'mutslice') and name in ('position', 'rposition') and len(args) == 1 and args[0][0] == 'closure' \
+                and len(args[0][1]) == 1:
+            x = args[0][1][0]
+            env2 = dict(env)
+            env2[x] = 'u64'
+            sb, _ = self.expr(args[0][2], env2, 'bool')
+            return '(Rs.%s (fun %s => %s) %s)' % (name, lean_ident(x), sb, sr), ('option', 'usize')
+        if tr in ('uint', 'slice', 'mutslice') and name == 'first' and not args:
+            return '(%s).head?' % sr, ('option', 'u64')
+        if isinstance(tr, tuple) and tr[0] == 'option':
+            if name == 'copied' and not args:
+                return sr, tr
+            if name == 'unwrap_or' and len(args) == 1:
+                sd, _ = self.expr(args[0], env, tr[1])
+                return '((%s).getD %s)' % (sr, sd), tr[1]
+            if name == 'map_or' and len(args) == 2 and args[1][0] == 'closure' and len(args[1][1]) == 1:
+                sd, td = self.expr(args[0], env, exp)
+                x = args[1][1][0]
+                env2 = dict(env)
+                env2[x] = tr[1]
+                sb, tb = self.expr(args[1][2], env2, td)
+                return '(match %s with\n  | some %s => %s\n  | none => %s)' % (sr, lean_ident(x), sb, sd), tb
         if (tr in ('slice', 'mutslice', 'uint') or (isinstance(tr, tuple) and tr[0] == 'array')) and name == 'len':
             return '(%s).length' % sr, 'usize'
         if tr == 'uint' and ('Uint::' + name) in self.fns:
@@ -907,6 +994,10 @@ class Emitter:
                     local.add(n)
             elif s[0] == 'assign':
                 for n in self.target_roots(s[1]):
+                    if n and n not in local and n not in out:
+                        out.append(n)
+            if s[0] == 'expr' and s[1][0] == 'mcall' and s[1][2] == 'reverse' and not s[1][3]:
+                for n in self.target_roots(s[1][1]):
                     if n and n not in local and n not in out:
                         out.append(n)
             if s[0] == 'expr' and s[1][0] == 'mcall' and s[1][1][0] == 'path' and len(s[1][1][1]) == 1:
@@ -1102,6 +1193,8 @@ class Emitter:
         if isinstance(pat, str):
             pat = ('pid', pat)
         if pat[0] == 'pid':
+            if it[0] == 'fieldname' and it[2] == 'limbs' and it[1][0] == 'path' and len(it[1][1]) == 1:
+                it = it[1]                      # `for limb in &mut x.limbs`: the limbs of the Uint variable x
             if not (it[0] == 'path' and len(it[1]) == 1):
                 raise TranslateError('unsupported iterator expression')
             return [(pat[1], it[1][0])], rev
@@ -1186,7 +1279,7 @@ class Emitter:
             pairs, rev = self.foreach_pairs(var, it)
             for _, ys in pairs:
                 ity = env.get(ys)
-                if not (ity in ('slice', 'mutslice') or (isinstance(ity, tuple) and ity[0] == 'array')):
+                if not (ity in ('slice', 'mutslice', 'uint') or (isinstance(ity, tuple) and ity[0] == 'array')):
                     raise TranslateError('unsupported iterator expression')
             self.tmp = getattr(self, 'tmp', 0) + 1
             idx = 'it%d' % self.tmp
@@ -1239,6 +1332,50 @@ class Emitter:
                 term, tt = self.expr(s[3], env, t)
                 self.consts[s[1]] = (term, t)
             return self.stmts(rest, env, exp, result)
+        if k in ('expr', 'expr_nosemi', 'tail') and s[1][0] == 'match' and (
+                rest or self.fn_return_in(s) or (isinstance(result, tuple) and result[0] == 'loop') or isinstance(result, list)):
+            # `match scalar { lit => arm, …, _ => arm }` as a statement: `let t = scalar; if t == lit { arm } else if … else { arm }`
+            _, scrut, arms = s[1]
+            self.tmp = getattr(self, 'tmp', 0) + 1
+            t = 'mt%d' % self.tmp
+            se, te = self.expr(scrut, env, None)
+
+            def blk(body):
+                if body[0] == 'block':
+                    b = body
+                else:
+                    b = ('block', [('tail', body)])
+                # `unreachable_unchecked()` / an empty arm: nothing happens (Rust has proved the arm unreachable or empty)
+                def unreachable(x):
+                    return (isinstance(x, tuple) and x and x[0] in ('expr', 'tail', 'expr_nosemi') and x[1][0] == 'call'
+                            and x[1][1][-1] == 'unreachable_unchecked')
+                st = []
+                for x in b[1]:
+                    if x[0] in ('tail', 'expr_nosemi', 'expr') and x[1][0] == 'block':
+                        st += [y for y in x[1][1] if not unreachable(y)]
+                    elif not unreachable(x):
+                        st.append(x)
+                return ('block', st)
+            chain = None
+            for pat, body in reversed(arms):
+                if pat[0] == 'mwild' or (pat[0] == 'mbind'):
+                    if chain is not None:
+                        raise TranslateError('irrefutable match arm before the last one')
+                    chain = blk(body)
+                    continue
+                if pat[0] not in ('mlit', 'mbool'):
+                    raise TranslateError('statement match on a non-scalar pattern')
+                v = pat[1]
+                if pat[0] == 'mlit':
+                    if v < 0:
+                        v += 2 ** self.w(te)
+                    cond = ('bin', '==', ('path', [t]), ('lit', v, te))
+                else:
+                    cond = ('path', [t]) if v else ('un', '!', ('path', [t]))
+                chain = ('block', [('expr_nosemi', ('if', cond, blk(body), chain))])
+            env[t] = te
+            body, tb = self.stmts(chain[1] + rest, env, exp, result)
+            return 'let %s := %s\n  %s' % (t, se, body), tb
         mc = self.mut_call(s)
         if mc is not None:
             call, targets, unit = mc
@@ -1349,8 +1486,18 @@ class Emitter:
                 se, te = self.expr(s[1], env, self.inner_rt)
                 return self.wrap_ret(se, env), self.cur_rt
             if result is not None:
+                # the value of a trailing expression is discarded here (loop body / assigning branch): only an empty block may be
+                if not (s[1][0] == 'block' and not s[1][1]):
+                    raise TranslateError('trailing expression with untranslated effect: %r' % (s[1][:2],))
                 return self.finish(result, env)
             return self.expr(s[1], env, exp)
+        if k == 'expr' and s[1][0] == 'mcall' and s[1][2] == 'reverse' and not s[1][3]:
+            tg = s[1][1]
+            base = tg[1] if (tg[0] == 'fieldname' and tg[2] == 'limbs') else tg
+            if base[0] == 'path' and len(base[1]) == 1 and env.get(base[1][0]) in ('uint', 'mutslice'):
+                body, tb = self.stmts(rest, env, exp, result)
+                n = lean_ident(base[1][0])
+                return 'let %s := (%s).reverse\n  %s' % (n, n, body), tb
         if k == 'expr':
             e = s[1]
             if (e[0] == 'mcall' and e[1][0] == 'path' and len(e[1][1]) == 1 and env.get(e[1][1][0]) == 'uint'
@@ -1435,6 +1582,8 @@ class Emitter:
     def lean_ty(self, t):
         if t == 'bool':
             return 'Bool'
+        if t == 'Ordering':
+            return 'Ordering'
         if isinstance(t, tuple) and t[0] == 'option':
             return 'Option (%s)' % self.lean_ty(t[1])
         if t == 'uint' and getattr(self, 'uint_mode', False) == 'value':
@@ -1473,6 +1622,22 @@ def ctzAux : Nat → Nat → Nat
   | 0, _ => 0
   | f + 1, x => if x % 2 = 1 then 0 else ctzAux f (x / 2) + 1
 def ctz (w a : Nat) : Nat := if a = 0 then w else ctzAux w a
+/-- `reverse_bits` of a `w`-bit word -/
+def revAux : Nat → Nat → Nat → Nat
+  | 0, _, acc => acc
+  | f + 1, x, acc => revAux f (x / 2) (2 * acc + x % 2)
+def rev (w a : Nat) : Nat := revAux w a 0
+/-- `iter().position(p)` -/
+def position (p : Nat → Bool) : List Nat → Option Nat
+  | [] => none
+  | x :: xs => if p x then some 0 else (position p xs).map (· + 1)
+/-- `iter().rposition(p)`: index of the last element satisfying `p` -/
+def rposition (p : Nat → Bool) : List Nat → Option Nat
+  | [] => none
+  | x :: xs =>
+    match rposition p xs with
+    | some i => some (i + 1)
+    | none => if p x then some 0 else none
 /-- iterate `step` (new state, continue?) at most `fuel` times, stopping when it says so -/
 def loop {σ : Type} (step : σ → σ × Bool) : Nat → σ → σ
   | 0, s => s
@@ -1586,7 +1751,10 @@ def uint_items(repo):
                   ('bits.rs', 'checked_shr'), ('bits.rs', 'wrapping_shr'), ('bits.rs', 'arithmetic_shr'),
                   ('bits.rs', 'rotate_left'), ('bits.rs', 'rotate_right'),
                   ('mul.rs', 'overflowing_mul'), ('mul.rs', 'wrapping_mul'), ('mul.rs', 'checked_mul'),
-                  ('mul.rs', 'saturating_mul')):
+                  ('mul.rs', 'saturating_mul'),
+                  ('special.rs', 'is_power_of_two'), ('special.rs', 'checked_next_power_of_two'),
+                  ('mul.rs', 'inv_ring'), ('bits.rs', 'trailing_zeros'), ('bits.rs', 'trailing_ones'),
+                  ('bits.rs', 'most_significant_bits'), ('bits.rs', 'reverse_bits')):
         out.append({'file': repo + '/src/' + f, 'fn': fn, 'lean': 'uint_' + fn, 'key': 'Uint::' + fn, 'self_ty': 'uint',
                     'uint': True, 'group': 'uint', 'externs': UINT_EXTERNS})
     return out
@@ -1601,7 +1769,8 @@ def kernel_items(repo):
             {'file': a + 'mul.rs', 'fn': 'addmul_nx1', 'lean': 'addmul_nx1', 'group': 'kernels'},
             {'file': a + 'mul.rs', 'fn': 'submul_nx1', 'lean': 'submul_nx1', 'group': 'kernels'},
             {'file': a + 'shift.rs', 'fn': 'shift_left_small', 'lean': 'shift_left_small', 'group': 'kernels'},
-            {'file': a + 'shift.rs', 'fn': 'shift_right_small', 'lean': 'shift_right_small', 'group': 'kernels'}]
+            {'file': a + 'shift.rs', 'fn': 'shift_right_small', 'lean': 'shift_right_small', 'group': 'kernels'},
+            {'file': a + 'mod.rs', 'fn': 'cmp', 'lean': 'limb_cmp', 'group': 'kernels'}]
 
 
 def redc_loop_items(repo):
